@@ -373,8 +373,9 @@ def execute_orbit(ctx: RunCtx) -> None:
             pre = "none"
     ctx.probe("prehistory_" + pre)
     x_before, T_before = np.array(orbit.initial_state, float), orbit.period
-    opts = orbit.correction_options.merge(**{"base.convergence.tol": tol, "base.convergence.max_attempts": max_attempts})
-    cfgd = {"sys": s, "point": p, "family": fam, an: amp, "tol": tol, "max_attempts": max_attempts, "prehistory": pre}
+    forward = ds.pick([1, -1], "orbit.forward", (0.75, 0.25))
+    opts = orbit.correction_options.merge(**{"base.convergence.tol": tol, "base.convergence.max_attempts": max_attempts, "forward": forward})
+    cfgd = {"sys": s, "point": p, "family": fam, an: amp, "tol": tol, "max_attempts": max_attempts, "prehistory": pre, "forward": forward}
     log.add("cfg", {k: (fhex(v) if isinstance(v, float) else v) for k, v in cfgd.items()}, sorted((k, v) for k, v in faults.items()))
     state = {}
     real_run = _NB.run
@@ -426,7 +427,7 @@ def execute_orbit(ctx: RunCtx) -> None:
                                                               f"(period {orbit.period}); a failed period computation must not be reported as success")
     inj = state.get("inj")
     fired = inj.fired if inj else []
-    what = f"{fam} orbit at {s} L{p}, {an}={amp}, tol={tol:.0e}, max_attempts={max_attempts}"
+    what = f"{fam} orbit at {s} L{p}, {an}={amp}, tol={tol:.0e}, max_attempts={max_attempts}, forward={forward}, prehistory={pre}"
     ctx.nontrivial = bool(fired)
     ctx.steps += inj.evals if inj else 0
     ctx.sig_parts = [cfgd, sorted(map(str, fired))]
@@ -462,6 +463,9 @@ def execute_orbit(ctx: RunCtx) -> None:
     bound = 50.0 * max(Mn, 1.0) * max(tol, 1e-12)
     if err > bound and fam == "vertical" and KNOWN.get("C05-K1-vertical-family-correction-not-periodic"):
         ctx.note_known("C05-K1-vertical-family-correction-not-periodic")
+        return
+    if err > bound and forward == -1 and KNOWN.get("C05-K2-backward-correction-searches-the-crossing-forward"):
+        ctx.note_known("C05-K2-backward-correction-searches-the-crossing-forward")
         return
     if err > bound:
         raise Violation("C05/P1-closure", f"{what}: independent DOP853 propagation of the returned state over the returned period misses the start by "
